@@ -817,7 +817,8 @@ def do_run(inp, outp):
     cases = [json.loads(l) for l in open(inp)]
     with open(outp, 'w') as fo:
         for case in cases:
-            tmo = CASE_TIMEOUT[case.get('mode', 'gen')]
+            tmo = CASE_TIMEOUT[case.get('mode', 'gen')] * int(
+                os.environ.get('C12_TIMEOUT_SCALE', '1'))
             r, w = os.pipe()
             sys.stdout.flush()
             pid = os.fork()
